@@ -219,14 +219,18 @@ type ConnTap struct {
 	BytesDeliv   [2]int64
 	// C14: counters frozen when the first client Handshake packet is delivered to the server
 	ClientHSDelivered bool
-	KeyPhases         [2]int
-	Anomalies         []Anomaly
-	FirstFlight       []*DatagramInfo // client datagrams emitted before the first server datagram was delivered
-	serverDelivered   bool
-	Datagrams         []*DatagramInfo
-	HandshakeDoneSeen bool
-	Unopened          int
-	pktBytes          map[string][]byte
+	// an Initial carrying the token of a Retry the server really sent was delivered to the server
+	RetryTokenDelivered bool
+	RetryTokens         [][]byte
+	NewTokens           [][]byte // tokens from NEW_TOKEN frames sent by the server
+	KeyPhases           [2]int
+	Anomalies           []Anomaly
+	FirstFlight         []*DatagramInfo // client datagrams emitted before the first server datagram was delivered
+	serverDelivered     bool
+	Datagrams           []*DatagramInfo
+	HandshakeDoneSeen   bool
+	Unopened            int
+	pktBytes            map[string][]byte
 }
 
 // Wire demultiplexes datagrams to connection taps.
@@ -385,6 +389,19 @@ func (c *ConnTap) shortLen(dir Dir) func(b []byte) int {
 
 func (c *ConnTap) observe(d *DatagramInfo) {
 	dir := d.Dir
+	// ---- C14 wire layer: until the client's address is validated (a client Handshake packet was
+	// delivered to the server, or an Initial carrying the token of a genuine Retry), the server may only
+	// send while what it has sent so far is below three times what was delivered to it; the datagram
+	// that crosses the limit is the "one packet that was already permitted".
+	if dir == S2C && !c.ClientHSDelivered && !c.RetryTokenDelivered {
+		c.Counts["c14_amplification_checks"]++
+		if c.BytesEmitted[S2C] >= 3*c.BytesDeliv[C2S] {
+			c.anomaly("C14", "C14|wire|amplification-limit-exceeded", "server sends a %d-byte datagram to an unvalidated address after %d bytes sent and only %d bytes received (limit %d)", len(d.Raw), c.BytesEmitted[S2C], c.BytesDeliv[C2S], 3*c.BytesDeliv[C2S])
+		}
+		if c.BytesEmitted[S2C]+int64(len(d.Raw)) > 3*c.BytesDeliv[C2S] {
+			c.Counts["c14_datagrams_crossing_limit"]++
+		}
+	}
 	c.BytesEmitted[dir] += int64(len(d.Raw))
 	pk, rest, err := SplitDatagram(d.Raw, c.shortLen(dir))
 	if err != nil {
@@ -400,6 +417,7 @@ func (c *ConnTap) observe(d *DatagramInfo) {
 			c.VNSeen++
 		case KindRetry:
 			c.RetrySeen++
+			c.RetryTokens = append(c.RetryTokens, append([]byte(nil), rp.Token...))
 			// a Retry changes the DCID the client uses, and thereby the Initial keys
 			c.cids[C2S][string(rp.SCID)] = true
 		default:
@@ -781,6 +799,10 @@ func (c *ConnTap) frame(dir Dir, kind Kind, pi *PacketInfo, f *Frame) {
 		}
 	case f.Type == FtRetireConnID:
 		c.RetiredSeqs[dir][f.Value] = true
+	case f.Type == FtNewToken:
+		if dir == S2C {
+			c.NewTokens = append(c.NewTokens, append([]byte(nil), f.Token...))
+		}
 	case f.Type == FtConnClose || f.Type == FtConnCloseApp:
 		c.Closes[dir] = append(c.Closes[dir], *f)
 	case f.Type == FtHandshakeDone:
@@ -921,6 +943,13 @@ func (w *Wire) Delivered(d *DatagramInfo, mod Mod, now time.Duration) {
 		c.DeliveredPN[d.Dir][space][p.PN] = true
 		if d.Dir == C2S && p.Kind == KindHandshake {
 			c.ClientHSDelivered = true
+		}
+		if d.Dir == C2S && p.Kind == KindInitial && len(p.Token) > 0 {
+			for _, t := range c.RetryTokens {
+				if bytes.Equal(t, p.Token) {
+					c.RetryTokenDelivered = true
+				}
+			}
 		}
 		for j := range p.Frames {
 			f := &p.Frames[j]
